@@ -266,7 +266,21 @@ fn token_for(ide: &WebIdeState, sk: &str) -> Result<String, String> {
             jump_clock(ttl(ide) + 1);
             Ok(t)
         }
-        _ => Ok("bm90LWEtc2Vzc2lvbi10b2tlbi1ub3QtYS1zZXNzaW9uLXRva2Vu".to_string()),
+        _ => {
+            // no session token at all, but a near miss of a live editor session's token (a proper prefix,
+            // an extension, another letter case, the empty string) or an unrelated string, in turn
+            static TURN: std::sync::atomic::AtomicUsize = std::sync::atomic::AtomicUsize::new(0);
+            let live = ide.create_session(IdeRole::Editor).map(|s| s.token).map_err(|e| e.to_string())?;
+            let turn = TURN.fetch_add(1, std::sync::atomic::Ordering::SeqCst);
+            Ok(match turn % 5 {
+                0 => live[..live.len() - 1].to_string(),
+                1 => format!("{live}A"),
+                2 if live.to_ascii_uppercase() != live => live.to_ascii_uppercase(),
+                2 => live.to_ascii_lowercase(),
+                3 => String::new(),
+                _ => "bm90LWEtc2Vzc2lvbi10b2tlbi1ub3QtYS1zZXNzaW9uLXRva2Vu".to_string(),
+            })
+        }
     }
 }
 fn flatten_tree(nodes: &[IdeTreeNode], out: &mut Vec<String>) {
